@@ -12,6 +12,41 @@ COMMON_NOTE = ('Trusted base: Coq 8.16.1 kernel and vm_compute (no native_comput
                'Gallina model, tied to /repo on every run by regenerated tables and a differential run.')
 
 CLAIMS = {
+    'C03': dict(
+        technique='Rocq proof of the ownership invariant over every history of the core API calls of the heap model (plans '
+                  'regenerated from src/document.cpp) + extracted-model/libadm differential run with the well-formedness oracle',
+        text='Theorems (Props/Properties_C03.v, Heap/WF.v): every state reached from the empty state by successful calls - '
+             'create, Document::add/remove, add/set/remove/unset/clear of all fifteen reference kinds including '
+             'complementary objects and the stream/track protocol, set(Id), getSilent, lookup; any length, any number of '
+             'elements and documents - lists every element once, lists it exactly when the listing document is its parent, '
+             'and every element referenced by a parented element has the same parent. Document::add is proved to attach the '
+             'whole reference closure (induction on fuel with a pending set); attaching to a second document and linking '
+             'across documents throw. Partial (theorem name _partial): copy, deepCopy(To), reassignIds and object_creation '
+             'are covered by the differential run only. The model is tied to libadm by comparing full snapshots after every '
+             'call of generated histories; the oracle checks libadm\'s own snapshots.',
+        design='8 C03'),
+    'C04': dict(
+        technique='Rocq proof of the specification of Document::remove on the heap model (on top of the C03 invariant) + '
+                  'extracted-model/libadm differential run with the removal oracle',
+        text='Theorems (Props/Properties_C04.v, Heap/Remove.v): for every well-formed state and every element of every kind, '
+             'a successful Document::remove leaves the element without parent, no element of the document references it '
+             'through any kind, every other element keeps all non-reference fields and has exactly its old reference lists '
+             'with the removed element filtered out (same order), the membership list loses exactly that element; removing '
+             'an unlisted element returns false and changes nothing. The plans (which referrer loops exist, erase-first / '
+             'erase-all / unset) are regenerated from src/document.cpp and checked complete and typed.',
+        design='8 C04'),
+    'C05': dict(
+        technique='Rocq proof of the ID assigner\'s algorithmic core (nextCounter least-free, fresh assigned IDs, lookup, '
+                  'set(Id) in use) - uniqueness as an invariant of histories only explored (partial) + differential run with '
+                  'uniqueness and lookup oracles',
+        text='Partial. Proved (Props/Properties_C05.v, Heap/Ids.v) for all inputs: nextCounter returns the least value at or '
+             'above the preferred one that is not in use (given distinct values above it) and keeps a free preferred value; '
+             'the ID computed for a joining element is carried by no member of its kind; a free pre-set value is kept; '
+             'Document::add changes no element that already belongs to a document; lookup returns None exactly when no '
+             'listed element carries the ID; set(Id) of an ID in use throws and changes nothing. Not proved: that '
+             'uniqueness holds in every reachable state (hypothesis distinct_above); explored on libadm after every call of '
+             'generated histories (uniqueness, lookup and ID-stability oracles).',
+        design='8 C05'),
     'C01': dict(
         technique='Rocq proof over writer/parser tables regenerated from the XML code (name-level agreement, literal values, '
                   'table-driven round trip of the regular rows, ID and time codecs; partial) + write-parse-write differential run on libadm',
